@@ -76,11 +76,13 @@ pub fn build(forge: &mut Forge, cons: &Consensus) -> Result<Universe, String> {
     let x1 = tx_with(cons, &g[0..1], &[(b"ab", None, b"d1", 0), (b"abc", Some(b"ab"), b"hello", 1_000), (b"abd", None, b"", 2_000), (b"", Some(b"abc"), b"d", 3_000)], 1);
     // created and consumed in the same block
     let x2 = tx_with(cons, &[out(&x1, 0)], &[(b"ab", None, b"xyz", 0), (b"abc", None, b"d2", 500)], 2);
-    let x3 = tx_with(cons, &[out(&x1, 1), g[1].clone()], &[(b"abc", Some(b"ab"), b"", 0), (b"ab", Some(b"abc"), b"dd", 700)], 3);
+    // (a lock whose args extend "ab" by a zero byte: its index keys sort between the block-0 keys and
+    // the later keys of "ab")
+    let x3 = tx_with(cons, &[out(&x1, 1), g[1].clone()], &[(b"abc", Some(b"ab"), b"", 0), (b"ab", Some(b"abc"), b"dd", 700), (b"ab\x00", Some(b"ab\x00\x01"), b"z", 650)], 3);
     let x4 = tx_with(cons, &[out(&x2, 1)], &[(b"abd", None, b"tail", 0)], 4);
     // branch B
     let y1 = tx_with(cons, &g[0..1], &[(b"abd", Some(b"ab"), b"d9", 0), (b"ab", None, b"", 4_000)], 11);
-    let y2 = tx_with(cons, &g[2..3], &[(b"abc", None, b"dz", 0), (b"abc", Some(b"abc"), b"q", 900)], 12);
+    let y2 = tx_with(cons, &g[2..3], &[(b"abc", None, b"dz", 0), (b"abc", Some(b"abc"), b"q", 900), (b"ab\x00", None, b"", 640)], 12);
     let y3 = tx_with(cons, &[out(&y1, 1), out(&y2, 0)], &[(b"", None, b"merged", 0)], 13);
     let ids = |txs: &[&TransactionView]| txs.iter().map(|t| t.proposal_short_id()).collect::<Vec<_>>();
     let genesis = cons.genesis_hash();
@@ -257,7 +259,7 @@ impl Query {
 
 fn grid(thorough: bool) -> Vec<Query> {
     let mut out = vec![];
-    let scripts: Vec<&[u8]> = vec![b"", b"a", b"ab", b"abc", b"abd", b"zz"];
+    let scripts: Vec<&[u8]> = vec![b"", b"a", b"ab", b"ab\x00", b"abc", b"abd", b"zz"];
     let shannons = 100_000_000u64;
     for args in &scripts {
         for is_type in [false, true] {
@@ -644,7 +646,7 @@ pub fn meta(tier: Tier) -> Meta {
     Meta {
         id: "C18",
         level: "model_checking",
-        rule: "universe: two branches from genesis (6 and 5 blocks) whose transactions create cells under four lock-args (\"\", ab, abc, abd) and two type-args (ab, abc) of one code hash, with data of length 0..6, a cell created and consumed in the same block, multi-input spends. follow family: a real node receives a1..a_k, b1..b_(k+1) (reorg), a_(k+1).. (reorg back) for every first lead k (thorough: additionally every interleaving of the two branches, 462 orders); after every delivery the real IndexerService (secondary DB of the node) runs one pass of the production sync loop, then EVERY query of the grid is asked through IndexerHandle: script args in {\"\", a, ab, abc, abd, zz} x lock/type x prefix/exact x {no filter, other-script filter ab / empty, block ranges [0,3) [3,4) [4,max) [3,3), capacity ranges, data length ranges, data prefix} x asc/desc; get_cells with limit 1, 2, 1000 and cursor continuation to exhaustion, get_cells_capacity, get_transactions ungrouped with limit 1, 3, 1000 and grouped with limit 2; oracle = the same filter over a plain replay of the main chain (live cells / per-script input-output history), ordered by (script bytes, block, tx index, io index[, io type]); tip equal. inversion family: explicit append / rollback walks on each branch (every rollback depth <= 4 after every append, retention 100 and 2): raw store image (all rows queries read; the ConsumedOutPoint undo log excluded) after rollback = image before the append (long retention), re-append = same image, answers = reference in both.",
+        rule: "universe: two branches from genesis (6 and 5 blocks) whose transactions create cells under five lock-args (\"\", ab, ab+0x00, abc, abd) and three type-args (ab, ab+0x0001, abc) of one code hash, with data of length 0..6, a cell created and consumed in the same block, multi-input spends. follow family: a real node receives a1..a_k, b1..b_(k+1) (reorg), a_(k+1).. (reorg back) for every first lead k (thorough: additionally every interleaving of the two branches, 462 orders); after every delivery the real IndexerService (secondary DB of the node) runs one pass of the production sync loop, then EVERY query of the grid is asked through IndexerHandle: script args in {\"\", a, ab, ab+0x00, abc, abd, zz} x lock/type x prefix/exact x {no filter, other-script filter ab / empty, block ranges [0,3) [3,4) [4,max) [3,3), capacity ranges, data length ranges, data prefix} x asc/desc; get_cells with limit 1, 2, 1000 and cursor continuation to exhaustion, get_cells_capacity, get_transactions ungrouped with limit 1, 3, 1000 and grouped with limit 2; oracle = the same filter over a plain replay of the main chain (live cells / per-script input-output history), ordered by (script bytes, block, tx index, io index[, io type]); tip equal. inversion family: explicit append / rollback walks on each branch (every rollback depth <= 4 after every append, retention 100 and 2): raw store image (all rows queries read; the ConsumedOutPoint undo log excluded) after rollback = image before the append (long retention), re-append = same image, answers = reference in both.",
         assumptions: &["the RocksDB indexer only: the rich indexer (sqlite, async) is not driven", "script_search_mode partial is refused by this indexer (by design) and not part of the grid", "the tx-pool overlay (index_tx_pool) is off"],
         bounds: json!({"queries": grid(tier.is_thorough()).len(), "first_leads": [1, 2, 3, 4]}),
     }
